@@ -330,13 +330,15 @@ example : CurveSrc.Circle_ContainsPoint_contains ⟨⟨-3, 2⟩, 7⟩ ⟨0, 5⟩
 
 /-- Every function of every `impl` of `Circle`, `circle::Points`, `circle::Scanlines` (and of `Scanline`, the ellipse
 types) in the parsed files that is NOT translated. An added function (an override of `Iterator::nth` / `fold` for
-`Points`, a second `contains`) shows up here and breaks this theorem. -/
+`Points`, a second `contains`) shows up here and breaks this theorem. Generic impls (`impl<C: PixelColor> StyledDrawable ..`)
+are not looked into by the item scanner and are not part of this list. -/
 theorem curve_untranslated_pinned :
     CurveSrc.untranslated =
       [("impl Circle", ["distances"]),
        ("impl Transform for Circle", ["translate_mut"]),
        ("impl Transform for Ellipse", ["translate_mut"]),
        ("impl Scanline", ["bresenham_intersection", "draw", "extend", "to_rectangle", "touches", "try_extend",
-         "try_take"])] := by decide
+         "try_take"]),
+       ("impl StyledScanline", ["draw_stroke", "draw_stroke_and_fill"])] := by decide
 
 end EG.C05.Src
